@@ -27,4 +27,18 @@ THEOREMS_C14_ORDERS2 = [
     (M, 'EAO.C14O2.split_equals_unsplit_orderbooks_builders',
      'hence, with no witness hypothesis: interval solutions feasible and optimal for the interval problems (integrality of full-execution orders included), concatenated and transported '
      'along splitPerm, are a feasible and OPTIMAL point of the unsplit problem, and the unsplit optimum is the sum of the interval optima'),
+    (M, 'EAO.C14O2.assembly_without_inert',
+     'dropping the inert variables of an ASSEMBLED problem (Problem.dropInert) EQUALS assembling the asset problems without their unmapped variables (livePart), for asset problems whose '
+     'unmapped variables are inert (InertOK): the live variables of the assembly are the mapped variables of the assets; equality of cost, bounds, rows in order, mapping, nodal record'),
+    (M, 'EAO.C14O2.orderbook_interval_live',
+     'the order book built on the grid of an interval has only inert unmapped orders, and without them it IS the restriction of the unsplit order book (orders not across the cut)'),
+    (M, 'EAO.C14O2.builder_interval_live', 'a restricted interval-banded asset problem (what a builder returns in an interval) has no unmapped variable: it is its own live part'),
+    (M, 'EAO.C14O2.split_witness_orderbooks_literal',
+     'for the LITERAL output ps of setupSplitOB (every order a variable of every interval) of every portfolio of the five builders plus order books under obHyps and booksDfOk (one discount '
+     'factor per step for every book): splitWitnessModInert U ps (splitPermLive U Is) = true - no certificate'),
+    (M, 'EAO.C14O2.split_setup_orderbooks_succeeds', 'under the same hypotheses the split set-up succeeds whenever the unsplit problem has a variable, and its output satisfies the witness modulo inert variables'),
+    (M, 'EAO.C14O2.split_equals_unsplit_orderbooks_literal',
+     'hence, with NO witness hypothesis (LP): optima of the literal interval problems (inert order variables included), stripped of the inert entries, concatenated, transported along '
+     'splitPermLive and extended by the lower bounds, are a feasible and OPTIMAL point of the unsplit problem; the unsplit optimum is the sum of the interval optima'),
+    (M, 'EAO.C14O2.split_equals_unsplit_orderbooks_literal_bool', 'the same with the integrality conditions of full-execution orders on both sides'),
 ]
